@@ -241,8 +241,15 @@ impl Resolver {
                 }
             }
             28 => {
-                // powf, positive base
-                let n = k * 1.25;
+                // powf, positive base; one exponent in four is special: tiny non-zero (|n| < machine epsilon),
+                // an exact small integer (incl. 0, 1, 2, 3), or within a few ulps of 1 or 2
+                let n = match r.n.rem_euclid(16) {
+                    0 => k * 1e-16,
+                    1 => (k * 4.0).round(),
+                    2 => 1.0 + (k * 4.0).round() * f64::EPSILON,
+                    3 => 2.0 + (k * 4.0).round() * 2.0 * f64::EPSILON,
+                    _ => k * 1.25,
+                };
                 let v = va.powf(n);
                 if va >= 1e-2 && va <= 1e2 && Self::ok(v) && v.abs() >= 1e-12 {
                     self.push(Op::Powf(a, n), v)
